@@ -17,7 +17,9 @@ extern "C" {
 const char* const PROPERTY_ID = "C02";
 const size_t PROPERTY_MAXLEN = 300;
 
-void property_init() {}
+#include "idnagen.h"
+
+void property_init() { vf::idn::init_tables(); }
 
 namespace {
 
@@ -148,7 +150,17 @@ bool family_pattern(vf::ByteSource& b, std::string& trace) {
 }
 
 bool family_idna(vf::ByteSource& b, std::string& trace) {
-  std::string s = b.coin() ? b.raw(120) : vf::gen::host(b);
+  // raw bytes, URL-grammar hosts, or G-idna domains (class-weighted Unicode alphabets built
+  // from the reference tables: marks, precomposed letters, Hangul boundaries, joiners, xn-- labels)
+  unsigned pick = b.below(3);
+  std::string s = pick == 0 ? b.raw(120) : pick == 1 ? vf::gen::host(b) : ref::idna::utf32_to_utf8(vf::idn::domain(b));
+  if (pick == 2 && b.coin()) {  // the same domain as the host of a URL and through the C API
+    std::string url = "https://" + s + "/p";
+    auto u = ada::parse<ada::url_aggregator>(url);
+    if (u) { read_all(*u); u->set_hostname(s); read_all(*u); }
+    g_sink += ada::can_parse(url);
+    ada_owned_string o = ada_idna_to_ascii(s.data(), s.size()); ada_free_owned_string(o);
+  }
   trace = "idna(\"" + vf::show(s) + "\")";
   std::string out;
   bool ok = ada::idna::to_ascii(s, out);
